@@ -34,6 +34,10 @@ for seed in a.seeds.split(','):
     res[key] = {'exit': p.returncode, 'wall_s': round(time.time() - t0, 1),
                 'lines': [l[:300] for l in last][:6]}
     print(key, p.returncode, res[key]['wall_s'], flush=True)
+    # (merge with what other sweep processes wrote in the meantime)
+    cur = json.load(open(out_path)) if os.path.exists(out_path) else {}
+    cur[key] = res[key]
+    res = cur
     json.dump(res, open(out_path, 'w'), indent=1, sort_keys=True)
 bad = {k: v for k, v in res.items() if v['exit'] != 0}
 print('non-zero exits:', json.dumps(bad, indent=1) if bad else 'none')
